@@ -156,9 +156,14 @@ fn run(ctx: &Ctx) -> Part {
                     // every seventh case also after a run-time orientation change that keeps the logical size
                     if n % 7 == 3 {
                         let o2 = if n % 2 == 0 { cfg.orient ^ 4 } else { (cfg.orient & 4) | ((cfg.orient + 2) & 3) };
-                        let hist = [Op::SetOrientation(o2), Op::FillContiguous { r, colors: Colors::Coded { base: 0x0300, len } }];
+                        // fill, change the orientation, fill the same rectangle again (window / offset caches)
+                        let hist = [
+                            Op::FillContiguous { r, colors: Colors::Coded { base: 0x0500, len: None } },
+                            Op::SetOrientation(o2),
+                            Op::FillContiguous { r, colors: Colors::Coded { base: 0x0300, len } },
+                        ];
                         acc.evaluations += 1;
-                        acc.transitions += 2;
+                        acc.transitions += 3;
                         acc.traces += 1;
                         if let Err((f, _)) = check_history(cfg, &hist, &Checks::ALL) {
                             acc.violation(violation(ctx, cfg, &hist, "all", &f));
